@@ -262,7 +262,7 @@ def workload(pid, tier, rng):
     elif pid == "C02":
         execs += rs_exhaustive(rs_small, rng, apis=("recv", "setavail"), orders=2 if q else 4, probe="each")
         execs += rs_exhaustive(rs_mid, rng, apis=("recv", "setavail"), orders=1, probe="end", maxsub=150 if q else 1500)
-        execs += random_rs(rng, 300 if q else 4000, 255)
+        execs += random_rs(rng, 300 if q else 20000, 255)
         # the MDS argument rests on the generator being V_rest * V_top^-1: one (T: four) repair row(s) of EVERY k,
         # both GF(2^8) implementations, validated by ApiTrace!DoBuild (g * V_top = V[esi])
         for k in range(1, 255):
@@ -299,21 +299,21 @@ def workload(pid, tier, rng):
             execs.append(gen.decode_exec(p, list(range(p.k)), finish=True, probe="each", double_finish=True))
             execs.append(gen.decode_exec(p, [], finish=True, probe="each", query_first=True))
             execs.append(gen.decode_exec(p, full, api="setavail", finish=True, probe="each", double_finish=True))
-        execs += random_ldpc(rng, 100 if q else 1500, 40 if q else 64, cbs=cbs_all)
-        execs += random_rs(rng, 100 if q else 1500, 40 if q else 255, cbs=cbs_all)
+        execs += random_ldpc(rng, 100 if q else 15000, 40 if q else 64, cbs=cbs_all)
+        execs += random_rs(rng, 100 if q else 15000, 40 if q else 255, cbs=cbs_all)
     elif pid == "C11":
         execs += ldpc_exhaustive(ld_small[:4 if q else 8], rng, apis=("recv", "setavail"), finish=(True,),
                                  cbs=("buf", "null", "mix"), orders=1, probe="end")
         execs += rs_exhaustive(rs_small[:30 if q else None], rng, apis=("recv", "setavail"), cbs=("buf", "null", "mix"),
                                orders=1, probe="end")
-        execs += random_ldpc(rng, 600 if q else 6000, 40 if q else 64, cbs=("buf", "null", "mix"))
-        execs += dense_ldpc(rng, 300 if q else 3000, cbs=("buf", "null", "mix"), finish_choices=(True, False), probe="end")
-        execs += random_rs(rng, 600 if q else 6000, 40 if q else 255, cbs=("buf", "null", "mix"))
+        execs += random_ldpc(rng, 600 if q else 25000, 40 if q else 64, cbs=("buf", "null", "mix"))
+        execs += dense_ldpc(rng, 300 if q else 12000, cbs=("buf", "null", "mix"), finish_choices=(True, False), probe="end")
+        execs += random_rs(rng, 600 if q else 25000, 40 if q else 255, cbs=("buf", "null", "mix"))
     elif pid == "C08":
         execs += release_everywhere(ld_small[:8 if q else 12] + [rs_small[i] for i in range(0, len(rs_small), 3 if q else 1)], rng)
-        execs += random_ldpc(rng, 600 if q else 6000, 40 if q else 64, cbs=cbs_all)
-        execs += dense_ldpc(rng, 300 if q else 3000, cbs=cbs_all, finish_choices=(True, False), probe="end")
-        execs += random_rs(rng, 600 if q else 6000, 40 if q else 255, cbs=cbs_all)
+        execs += random_ldpc(rng, 600 if q else 25000, 40 if q else 64, cbs=cbs_all)
+        execs += dense_ldpc(rng, 300 if q else 12000, cbs=cbs_all, finish_choices=(True, False), probe="end")
+        execs += random_rs(rng, 600 if q else 25000, 40 if q else 255, cbs=cbs_all)
         execs += big_ldpc(rng, [400] if q else [400, 1200, 3000])
     elif pid == "C07":
         # lengths, alignments, limits
@@ -331,9 +331,9 @@ def workload(pid, tier, rng):
             execs.append(gen.decode_exec(p, rng.sample(range(p.n), k), api="setavail", finish=True, probe="end", cb="buf"))
             execs.append(gen.encode_exec(p))
         execs += release_everywhere(ld_small[:4] + rs_small[:8], rng, cbs=(None, "mix"))
-        execs += random_ldpc(rng, 800 if q else 8000, 40 if q else 100, cbs=cbs_all)
-        execs += dense_ldpc(rng, 300 if q else 3000, cbs=cbs_all, finish_choices=(True, False), probe="end")
-        execs += random_rs(rng, 800 if q else 8000, 60 if q else 255, cbs=cbs_all)
+        execs += random_ldpc(rng, 800 if q else 30000, 40 if q else 100, cbs=cbs_all)
+        execs += dense_ldpc(rng, 300 if q else 12000, cbs=cbs_all, finish_choices=(True, False), probe="end")
+        execs += random_rs(rng, 800 if q else 30000, 60 if q else 255, cbs=cbs_all)
         execs += big_ldpc(rng, [500] if q else [500, 1500, 4000])
         if not q:
             p = P(3, 2000, 1000, N1=3, seed=9, length=8, payload="rnd")
